@@ -29,6 +29,8 @@ func init() {
 			{Name: "comparator-nonstrict", File: "bfe_balance/bal_gslb/sub_cluster.go", Old: "	return s.l[i].Name < s.l[j].Name", New: "	return s.l[i].Name <= s.l[j].Name", Expect: "comparator"},
 			{Name: "key-rehashed-second-level", File: "bfe_balance/bal_gslb/sub_cluster.go", Old: "	return sub.backends.Balance(algor, key)", New: "	return sub.backends.Balance(algor, append([]byte(sub.Name), key...))", Expect: "key-flow"},
 			{Name: "random-key-always", File: "bfe_balance/bal_gslb/bal_gslb.go", Old: "	if len(hashKey) == 0 {\n		hashKey = make([]byte, 8)", New: "	if len(hashKey) < 4 {\n		hashKey = make([]byte, 8)", Expect: "key-random"},
+			{Name: "slowstart-from-setter", File: "bfe_balance/bal_slb/bal_rr.go", Old: "	brr.Lock()\n	brr.slowStartTime = ssTime\n	brr.Unlock()", New: "	brr.Lock()\n	brr.slowStartTime = ssTime\n	for _, b := range brr.backends {\n		if b.backend.GetRestart() {\n			b.initSlowStart(ssTime)\n		}\n	}\n	brr.Unlock()", Expect: "sticky-weights"},
+			{Name: "hash-header-raw-lookup", File: "bfe_balance/bal_gslb/bal_gslb.go", Old: "	if val := req.HttpRequest.Header.Get(header); len(val) > 0 {", New: "	if val := req.HttpRequest.Header.GetDirect(header); len(val) > 0 {", Expect: "key-header"},
 			{Name: "modulus-counts-unavailable", File: "bfe_balance/bal_slb/bal_rr.go", Old: "		if backendRR.backend.Avail() && backendRR.weight > 0 {\n			candidates = append(candidates, backendRR)\n			totalWeight += backendRR.weight\n		}", New: "		if backendRR.backend.Avail() && backendRR.weight > 0 {\n			candidates = append(candidates, backendRR)\n		}\n		totalWeight += backendRR.weight", Expect: "sticky-partition"},
 			{Name: "gslb-total-includes-negative", File: "bfe_balance/bal_gslb/bal_gslb.go", Old: "		if sub.weight > 0 {\n			totalWeight += sub.weight\n			availableNum += 1", New: "		totalWeight += sub.weight\n		if sub.weight > 0 {\n			availableNum += 1", Expect: "gslb-partition"},
 		},
@@ -327,6 +329,79 @@ func runC02(c *core.Ctx) {
 		}
 	}
 	c.Min("key-random", 2)
+	// ---- sticky selection walks the configured weights ------------------------------------------
+	// stickyBalance skips the slow-start bookkeeping (checkSlowStart), so nothing on its path undoes
+	// a provisional slow-start weight: the slow-start writers of BackendRR.weight may only run from
+	// checkSlowStart, and checkSlowStart only from BalanceRR.Balance under algor != WrrSticky.
+	for callee, allowed := range map[string][]string{
+		slb + ".BackendRR.initSlowStart":   {slb + ".BalanceRR.checkSlowStart"},
+		slb + ".BackendRR.updateSlowStart": {slb + ".BalanceRR.checkSlowStart"},
+		slb + ".BalanceRR.checkSlowStart":  {slb + ".BalanceRR.Balance"},
+	} {
+		okSet := map[string]bool{}
+		for _, a := range allowed {
+			okSet[a] = true
+		}
+		n := 0
+		for _, f := range c.P.SrcFuncs("") {
+			for _, ci := range core.Calls(f, callee) {
+				n++
+				k := core.FuncKey(f)
+				ok := okSet[k]
+				if ok && callee == slb+".BalanceRR.checkSlowStart" {
+					ok = core.HasGuard(ci.(ssa.Instruction).Block(), func(g core.Guard) bool {
+						b, isB := g.Cond.(*ssa.BinOp)
+						return isB && core.Render(b.X) == "algor" && core.Render(b.Y) == "2" && ((b.Op == token.NEQ && g.Pol) || (b.Op == token.EQL && !g.Pol))
+					})
+				}
+				c.Check("sticky-weights", callee+"<-"+k, ci.Pos(), ok, k+" calls "+callee+": slow-start weights (weight=1 at restart, ramping afterwards) may only be installed/advanced by checkSlowStart, which Balance skips for sticky selection; otherwise a sticky sub-cluster partitions the hash space by a provisional weight forever")
+			}
+		}
+		if n == 0 {
+			c.Check("sticky-weights", callee+"<-none", token.NoPos, false, callee+" has no caller")
+		}
+	}
+	if k, ok := c.P.Obj(slb, "WrrSticky").(*types.Const); !ok || k.Val().ExactString() != "2" {
+		c.Check("sticky-weights", "WrrSticky-const", token.NoPos, false, "bal_slb.WrrSticky is not the constant 2 the rule was reviewed with")
+	}
+	// ---- header-derived keys are read through the canonicalising accessor ----------------------------
+	// A configured header name (HashHeader) is not canonical in general; Header.GetDirect is a raw
+	// map access. Every header read in the balancer packages with a non-constant key must use
+	// Header.Get / a canonicalised key; constant keys must be in canonical form.
+	nHdr := 0
+	for _, f := range c.P.SrcFuncs("bfe_balance") {
+		for _, ci := range core.AllCalls(f) {
+			k := core.CalleeKey(ci.Common())
+			if k != "bfe_http.Header.GetDirect" && k != "bfe_http.Header.Get" {
+				if lk, isLk := ssa.Instruction(ci).(*ssa.Call); isLk {
+					_ = lk
+				}
+				continue
+			}
+			nHdr++
+			key := ci.Common().Args[1]
+			ok := true
+			why := ""
+			if s, isConst := core.ConstString(key); isConst {
+				if k == "bfe_http.Header.GetDirect" && s != textprotoCanonical(s) {
+					ok, why = false, "constant key "+s+" is not in canonical form"
+				}
+			} else if k == "bfe_http.Header.GetDirect" {
+				ok, why = false, "non-constant key "+core.Render(key)+" is looked up with the raw accessor GetDirect"
+			}
+			c.Check("key-header", fmt.Sprintf("%s:%s#%d", core.FuncKey(f), k[strings.LastIndex(k, ".")+1:], nHdr), ci.Pos(), ok, "the hash key is read from a request header without canonicalising the header name ("+why+"): a configured name such as x-client-id is never found and selection silently falls back to the client address or a random key")
+		}
+		// raw indexing of a Header map with a non-constant key
+		core.Instrs(f, func(in ssa.Instruction) {
+			if lk, ok := in.(*ssa.Lookup); ok && core.TypeStr(lk.X.Type()) == "bfe_http.Header" {
+				if _, isConst := core.ConstString(lk.Index); !isConst {
+					nHdr++
+					c.Check("key-header", fmt.Sprintf("%s:index#%d", core.FuncKey(f), nHdr), in.Pos(), false, "request header map indexed with the non-constant key "+core.Render(lk.Index)+" (no canonicalisation)")
+				}
+			}
+		})
+	}
+	c.Min("key-header", 1)
 	// ---- gslb partition: totalWeight sums weight only under weight > 0 ----------------------------------------------------
 	for _, fname := range []string{"BalanceGslb.Init", "BalanceGslb.Reload"} {
 		fn := c.P.Func(gslb, fname)
@@ -432,4 +507,19 @@ func publishedSorted(c *core.Ctx, rule string) {
 	if nPub < 2 {
 		c.Check(rule, "stores", token.NoPos, false, fmt.Sprintf("expected stores to BalanceGslb.subClusters in Init and Reload, found %d", nPub))
 	}
+}
+
+// textprotoCanonical is net/textproto.CanonicalMIMEHeaderKey for ASCII tokens.
+func textprotoCanonical(s string) string {
+	b := []byte(s)
+	upper := true
+	for i, c := range b {
+		if upper && 'a' <= c && c <= 'z' {
+			b[i] = c - 32
+		} else if !upper && 'A' <= c && c <= 'Z' {
+			b[i] = c + 32
+		}
+		upper = c == '-'
+	}
+	return string(b)
 }
